@@ -75,13 +75,14 @@ type SpecSet struct {
 	TypeInvs  map[string]*Clause // "pkg.Type" -> invariant over `self` (pointer to the type)
 	Immutable map[string]bool    // "pkg.Type": never written outside its defining packages (checked by inventory)
 	Frozen    map[string]bool    // "pkg.Type": fields written only by the function that allocates the object (checked by inventory)
+	GhostVars map[string]string  // "pkg.name" -> type: a ghost constant (e.g. "the VM of this execution")
 	Errors    []string
 	Files     []string
 }
 
 var clauseKw = map[string]bool{"func": true, "method": true, "closure": true, "requires": true, "ensures": true, "modifies": true,
 	"loop": true, "pure": true, "props": true, "pred": true, "external": true, "iface": true, "functype": true, "ghost": true,
-	"trusted": true, "helper": true, "panics": true, "table": true, "fieldinv": true, "typeinv": true, "globalinv": true, "immutable": true, "frozen": true, "assumes": true, "decreases": true, "assert": true, "fn": true, "nopanic": true}
+	"trusted": true, "helper": true, "panics": true, "table": true, "fieldinv": true, "eleminv": true, "typeinv": true, "globalinv": true, "immutable": true, "frozen": true, "ghostconst": true, "assumes": true, "decreases": true, "assert": true, "fn": true, "nopanic": true}
 
 var reParamList = regexp.MustCompile(`^([^\s(]+|\([^)]*\)\.[^\s(]+)\s*(?:\(([^)]*)\))?\s*(?:\(([^)]*)\))?\s*$`)
 
@@ -100,7 +101,7 @@ func splitNames(s string) []string {
 }
 
 func loadSpecs(repo string, pkgDirs map[string]string) *SpecSet {
-	ss := &SpecSet{Contracts: map[string]*Contract{}, Preds: map[string]*Pred{}, FieldInvs: map[string]string{}, TypeInvs: map[string]*Clause{}, Immutable: map[string]bool{}, Frozen: map[string]bool{}}
+	ss := &SpecSet{Contracts: map[string]*Contract{}, Preds: map[string]*Pred{}, FieldInvs: map[string]string{}, TypeInvs: map[string]*Clause{}, Immutable: map[string]bool{}, Frozen: map[string]bool{}, GhostVars: map[string]string{}}
 	var names []string
 	for n := range pkgDirs {
 		names = append(names, n)
@@ -257,6 +258,13 @@ func (ss *SpecSet) parseFile(pkg, path, data string) {
 				continue
 			}
 			ss.TypeInvs[pkg+"."+f[0]] = &Clause{Kind: "typeinv", Src: src, Expr: e, File: path, Line: rc.line}
+		case "ghostconst":
+			f := strings.Fields(rc.text)
+			if len(f) != 2 {
+				ss.errf(path, rc.line, "ghostconst <name> <type>")
+				continue
+			}
+			ss.GhostVars[pkg+"."+f[0]] = f[1]
 		case "frozen":
 			for _, f := range strings.Fields(rc.text) {
 				ss.Frozen[pkg+"."+f] = true
@@ -272,6 +280,20 @@ func (ss *SpecSet) parseFile(pkg, path, data string) {
 				continue
 			}
 			ss.FieldInvs["global:"+pkg+"."+f[0]] = f[1]
+		case "eleminv":
+			// eleminv <elemtype> nonnil : elements of slices of that element type are never nil
+			f := strings.Fields(rc.text)
+			if len(f) != 2 || f[1] != "nonnil" {
+				ss.errf(path, rc.line, "eleminv <[*]Type> nonnil")
+				continue
+			}
+			name := f[0]
+			if strings.HasPrefix(name, "*") {
+				name = "P_" + pkg + "." + name[1:]
+			} else {
+				name = pkg + "." + name
+			}
+			ss.FieldInvs["elem:"+name] = f[1]
 		case "fieldinv":
 			f := strings.Fields(rc.text)
 			if len(f) != 2 || (f[1] != "nonnil" && f[1] != "nullable") {
